@@ -17,6 +17,7 @@ type (
 	EIdent  struct{ Name string }
 	EInt    struct{ V string } // decimal text (big)
 	EStr    struct{ V string }
+	EReal   struct{ V string } // decimal text
 	EBool   struct{ V bool }
 	ENil    struct{}
 	EUnary  struct {
@@ -139,6 +140,16 @@ func lex(s string) ([]tok, error) {
 			for j < len(s) && ((s[j] >= '0' && s[j] <= '9') || (s[j] >= 'a' && s[j] <= 'f') || (s[j] >= 'A' && s[j] <= 'F') || s[j] == 'x' || s[j] == 'X' || s[j] == '_' || s[j] == 'o') {
 				// stop before ".." range operator
 				j++
+			}
+			// decimal fraction (but not the ".." range operator)
+			if j+1 < len(s) && s[j] == '.' && s[j+1] >= '0' && s[j+1] <= '9' {
+				k := j + 1
+				for k < len(s) && s[k] >= '0' && s[k] <= '9' {
+					k++
+				}
+				out = append(out, tok{"real", s[i:k]})
+				i = k
+				continue
 			}
 			out = append(out, tok{"int", s[i:j]})
 			i = j
@@ -414,6 +425,8 @@ func (p *parser) primary() Expr {
 			panic(fmt.Errorf("bad integer %q", t.v))
 		}
 		return &EInt{strconv.FormatUint(n, 10)}
+	case "real":
+		return &EReal{t.v}
 	case "str":
 		return &EStr{t.v}
 	case "op":
